@@ -280,6 +280,9 @@ def run(P, R, tier):
             _prd.check_return_deps(P, R, 'factor_analysis:FactorAnalysisBase.' + nm_)
     from ..engines import opt as _optf
     _optf.check_forwarded_defaults(P, R, ['factor_analysis'])
+    from ..engines import proto as _pst9
+    for f9_ in P.all_funcs(['factor_analysis']):
+        _pst9.check_standins(P, R, f9_.key)
 
 
 EXPLANATION += ' Also: (POL.residual-placement / PREC.placement) every factor of the residuals multiplies and the UBM variances divide; (OPT) optional factors are used only where present and an absent factor contributes 0 / None; (IDX.class-select) the per-class selection compares labels with ==; (DTYPE.raw) no float is stored into a buffer with the dtype of user statistics.'
